@@ -147,12 +147,15 @@ class SyncService(object):
         self.records = []             # every host record (projection input)
         self.draining = False
         self.ndata = 0
+        self.out = []                 # sync records written by the service (id, FAIL reason)
 
     def start(self, st):
         pass
 
     def reply(self, st, b):
         st.reply_buf += b
+        sid = wire.WORD_SYNC.get(wire.rd32(b, 0), '?')
+        self.out.append(dict(id=sid, data=bytes(b[8:]) if sid == 'FAIL' else b''))
 
     def on_write(self, st, payload):
         for r in self.parser.feed(payload):
@@ -184,7 +187,7 @@ class SyncService(object):
             return
         if sid == 'STAT':
             if plan.bad_id and plan.where == 'STAT':
-                self.reply(st, wire.sync_record(plan.bad_id, 0))
+                self.reply(st, wire.sync_record(plan.bad_id, 0) + wire.le32(0) * 2)
                 return
             f = self.fs.files.get(r['data'].decode('utf8', 'replace'))
             st_ = self.fs.stat_override.get(r['data']) if hasattr(self.fs, 'stat_override') else None
@@ -460,6 +463,7 @@ class SimDevice(object):
             dest = h['payload']
             rid = self.rid_of(lid, self)
             st = Stream(lid, rid, dest)
+            st.op = getattr(self, 'cur_op', None)
             self.streams[lid] = st
             self.all_streams.append(st)
             if self.held_streams and not self.hold_next_open:
